@@ -42,6 +42,8 @@ type Step struct {
 	Flg       map[string][]string `json:"flg"`
 	Used      []string            `json:"used"`
 	UIDNext   map[string]int      `json:"uidnext"`
+	Inv       map[string]bool     `json:"inv"`
+	Epoch     map[string]int      `json:"epoch"`
 }
 
 type Trace struct {
